@@ -140,7 +140,13 @@ def _local_source(body, l, depth, env):
     if depth > 90:
         return None
     res = set()
+    seen_defs = set()      # a threaded view repeats one statement in several copies of its block: one alternative
     for d in body.defs.get(l, []):
+        dk = repr(d[3]) if d[0] == "stmt" else (repr((d[2]["func"], d[2]["args"])) if d[0] == "call" else None)
+        if dk is not None:
+            if dk in seen_defs:
+                continue
+            seen_defs.add(dk)
         if d[0] == "stmt":
             rv = d[3]
             q = rv.get("ref") or rv.get("rawptr")
